@@ -24,6 +24,15 @@ type c08Host struct {
 	beh       vlib.Behaviour
 	behName   string
 	conn      *vlib.Conn
+	carrier   *c08Host // set when this host registered on another host's connection (one agent, several nodes)
+}
+
+// ackKey is the identity under which the fake agent's recorder logs the whitelist acknowledgement.
+func (h *c08Host) ackKey() string {
+	if h.carrier != nil {
+		return h.carrier.id.NodeID
+	}
+	return h.id.NodeID
 }
 
 func parallelCases(n int, workers int, fn func(i int)) {
@@ -71,6 +80,22 @@ func c08Case(ev *vlib.Evidence, driver string, idx int, allowHang bool) {
 			case k == 2 && allowHang:
 				h.beh, h.behName = vlib.BehHang, "hang"
 			}
+		}
+		if i > 0 && r.Intn(6) == 0 {
+			// one agent serving several nodes: this host registers on the connection of an earlier one
+			carrier := hosts[r.Intn(len(hosts))]
+			for carrier.carrier != nil {
+				carrier = carrier.carrier
+			}
+			var resp pool.ConnectResponse
+			if err := w.Signed(carrier.conn.AgentSide, h.id, h.id.NodeID, "vipnode_connect", &resp, vlib.ConnectReq(true, h.kind, fmt.Sprintf("enode://%s@192.0.2.%d:30303", h.id.NodeID, i+1), "")); err != nil {
+				ev.Violate("setup:connect-failed", map[string]interface{}{"err": err.Error()})
+				return
+			}
+			h.carrier, h.conn = carrier, carrier.conn
+			h.connected, h.beh, h.behName = carrier.connected, carrier.beh, carrier.behName+"(shared connection)"
+			hosts = append(hosts, h)
+			continue
 		}
 		c, err := w.ConnectHost(h.id, h.kind, fmt.Sprintf("192.0.2.%d:30303", i+1))
 		if err != nil {
@@ -135,7 +160,7 @@ func c08Case(ev *vlib.Evidence, driver string, idx int, allowHang bool) {
 			nn.LastSeen = time.Now().Add(-vlib.Pick(r, 130*time.Second, 180*time.Second, time.Hour))
 			w.RawStore.SetNode(nn)
 		}
-		if !h.connected {
+		if !h.connected && h.carrier == nil {
 			h.conn.Close()
 		}
 		trace = append(trace, fmt.Sprintf("host%s kind=%q fresh=%v connected=%v peered=%v whitelist=%s", h.id.Name[7:], h.kind, h.fresh, h.connected, h.peered, h.behName))
@@ -246,7 +271,7 @@ func c08Case(ev *vlib.Evidence, driver string, idx int, allowHang bool) {
 			ev.Violate("returned-ineligible-host", d)
 			return
 		}
-		if _, ok := acks[string(n.ID)]; !ok {
+		if _, ok := acks[h.ackKey()]; !ok {
 			d := detail()
 			d["returned"] = h.id.Name
 			ev.Violate("returned-host-without-ack", d)
@@ -320,7 +345,7 @@ func lastPeerResult(w *vlib.World, method string, requester *vlib.Identity, arg 
 
 func TestC08(t *testing.T) {
 	ev := vlib.NewEvidence("C08", "exploration",
-		"populations of 0..8 hosts with random kind, freshness (LastSeen injected 130 s..1 h old), connection state (closed => CloseRemote), already-peered flag and whitelist behaviour (ack, error, delayed ack, never answer); requester is a client or a host; signed vipnode_peer with Num in {-5,-1,0,1,2,3,supply-1,supply,supply+3} or legacy vipnode_client; MaxRequestHosts in {0,1,2,5}; oracle: every returned host is eligible and acknowledged vipnode_whitelist(requester) (logical stamp) before the reply, count <= min(requested,max), no hosts for <=0, error only if nothing acknowledged, exact count when every active host of the kind is eligible and acknowledges; non-trivial = at least one eligible host and a positive limit; distinct = distinct population+request descriptors")
+		"populations of 0..8 hosts (some registered on a shared connection: one agent, several nodes) with random kind, freshness (LastSeen injected 130 s..1 h old), connection state (closed => CloseRemote), already-peered flag and whitelist behaviour (ack, error, delayed ack, never answer); requester is a client or a host; signed vipnode_peer with Num in {-5,-1,0,1,2,3,supply-1,supply,supply+3} or legacy vipnode_client; MaxRequestHosts in {0,1,2,5}; oracle: every returned host is eligible and acknowledged vipnode_whitelist(requester) (logical stamp) before the reply, count <= min(requested,max), no hosts for <=0, error only if nothing acknowledged, exact count when every active host of the kind is eligible and acknowledges; non-trivial = at least one eligible host and a positive limit; distinct = distinct population+request descriptors")
 	ev.Assume("never-answering hosts cost the pool's constant 5 s timeout; those cases are a fixed share run in parallel")
 	for _, driver := range vlib.Drivers() {
 		n := vlib.Scale(1500, 20000)
